@@ -20,7 +20,7 @@ rm -f $wt/$rel
 snap=/tmp/vsnap$T-$id; rm -rf $snap; mkdir -p $snap; rsync -a --exclude .work --exclude .git --exclude replays /verif/ $snap/
 for p in $props; do
   echo "== our check $p against the patched tree"
-  (cd $snap && VERIF_REPO=$wt ./check $p 2>&1 | grep "VIOLATION\|signature\|KNOWN\|ERROR\|drift\|Traceback\|rror" | cut -c1-300 | sort | uniq -c | head -20; )
+  (cd $snap && VERIF_CACHE_DIR=/verif/.work/cache-swapfsm VERIF_REPO=$wt ./check $p 2>&1 | grep "VIOLATION\|signature\|KNOWN\|ERROR\|drift\|Traceback\|rror" | cut -c1-300 | sort | uniq -c | head -20; )
 done
 git checkout -q -- .
 rm -rf $snap
